@@ -40,4 +40,12 @@ done
 git -C /repo checkout -- .
 git -C /repo status --short | head -3
 fi
+if [ $ONLY = wtchecks ]; then
+echo "== checks against the worktree itself (VERIF_REPO_DIR), /repo untouched"
+for p in $PROPS; do
+  VERIF_REPO_DIR=$WT /verif/check $p --budget ${SEED_BUDGET:-20} > $OUT/wtcheck_$p.txt 2>&1; rc=$?
+  res="$res $p:$rc"
+  grep -m2 "^  C\|VIOLATION\|INCONCLUSIVE" $OUT/wtcheck_$p.txt | head -3
+done
+fi
 echo "RESULT $NAME demo_with=$with demo_without=$without suite=$suite checks=$res"
